@@ -25,7 +25,7 @@ ASSUMPTIONS = [
 BOUND = {"quick": "22 documents x 3 renderings; 65 field-order orbits; G(2,1) all kinds + G(3,1|4 kinds, prefix names) + G(2,2|4 kinds) x all orders; path / method / response / schema / property reorderings of 20 documents",
          "thorough": "same + G(3,1) 9 kinds + G(2,2) 9 kinds at IR level, G(2,1) at code level"}
 
-RENDERINGS = ["yaml", "yaml-flow", "yaml-intkeys"]
+RENDERINGS = ["yaml", "yaml-flow", "yaml-intkeys", "json-tabs-yaml-name"]   # the last: JSON indented with tabs in a file called *.yaml
 NO_REORDER = {"names", "input/test_name_collision_spec.json"}
 
 
@@ -130,6 +130,8 @@ def run_render(case):
     base = gen_tree(doc, "json")
     if r == "yaml-intkeys":
         other = gen_tree(int_keys(doc), "yaml")
+    elif r == "json-tabs-yaml-name":
+        other = gen_tree(doc, "json-tabs-yaml-name")
     else:
         other = gen_tree(doc, r)
     found = []
@@ -164,6 +166,33 @@ def path_perms(paths):
     return perms
 
 
+def _kwonly_sorted(clients):
+    """signatures with their keyword-only parameters (after `*`) in sorted order: their order carries no meaning"""
+    import re as _re
+
+    def norm(sig):
+        if not isinstance(sig, str) or ", *, " not in sig:
+            return sig
+        m = _re.match(r"^(.*?\(.*?), \*, (.*)\)( -> .*)$", sig, _re.S)
+        if not m:
+            return sig
+        parts, depth, cur = [], 0, ""
+        for ch in m.group(2):
+            if ch in "[(":
+                depth += 1
+            elif ch in "])":
+                depth -= 1
+            if ch == "," and depth == 0:
+                parts.append(cur.strip())
+                cur = ""
+            else:
+                cur += ch
+        parts.append(cur.strip())
+        return f"{m.group(1)}, *, {', '.join(sorted(parts))}){m.group(3)}"
+
+    return {c: {k: ([norm(x) for x in v] if isinstance(v, list) else norm(v)) for k, v in ms.items()} for c, ms in clients.items()}
+
+
 def run_paths(case):
     doc = docs.get(case["doc"], os.environ.get("VERIF_REPO", "/repo"))
     base = gen_tree(doc, "json")
@@ -196,6 +225,20 @@ def run_paths(case):
                 if isinstance(o, dict) and isinstance(o.get("responses"), dict):
                     o["responses"] = dict(sorted(o["responses"].items()))
         variants.append(("responses-sorted", d))
+    # the order in which a response / request body lists its media types
+    d = copy.deepcopy(doc)
+    changed = False
+    for k, v in d.get("paths", {}).items():
+        for m, o in v.items():
+            if not isinstance(o, dict):
+                continue
+            holders = [r for r in (o.get("responses") or {}).values() if isinstance(r, dict)] + ([o["requestBody"]] if isinstance(o.get("requestBody"), dict) else [])
+            for h in holders:
+                if isinstance(h.get("content"), dict) and len(h["content"]) > 1:
+                    h["content"] = dict(reversed(list(h["content"].items())))
+                    changed = True
+    if changed:
+        variants.append(("content-reversed", d))
     # schema order reversed + property order reversed
     if (doc.get("components") or {}).get("schemas"):
         d = copy.deepcopy(doc)
@@ -215,8 +258,9 @@ def run_paths(case):
         if "rejected" in other:
             found.append({"sig": f"C19|reorder|{what}|rejected after reordering", "key": key, "msg": f"{key}: {other['rejected']}"})
             continue
-        if other["clients"] != base["clients"]:
-            found.append({"sig": f"C19|reorder|{what}|operations / signatures differ", "key": key, "msg": f"{key}: {first_diff(base['clients'], other['clients'])}"})
+        oc, bc = (other["clients"], base["clients"]) if what != "content-reversed" else (_kwonly_sorted(other["clients"]), _kwonly_sorted(base["clients"]))
+        if oc != bc:
+            found.append({"sig": f"C19|reorder|{what}|operations / signatures differ", "key": key, "msg": f"{key}: {first_diff(bc, oc)}"})
         if other["models"] != base["models"]:
             found.append({"sig": f"C19|reorder|{what}|models differ", "key": key, "msg": f"{key}: {first_diff(base['models'], other['models'])}"})
     return {"findings": found, "evals": n + 1, "nontrivial": [f"{case['doc']}|{l}" for l, _ in variants], "nontrivial_multi": True,
